@@ -209,7 +209,19 @@ def _rules(ck, prog, cfg):
             elif last["args"]:
                 s0 = src_of_operand(rs, last["args"][0], through_calls=TRANSPARENT)
                 src_ok = s0.kind == "call" and is_callee(s0.term, r"get_gossip_targets$")
-        cut = [n for n in names if n not in ("into_iter", "iter", "copied", "cloned", "get_gossip_targets", "by_ref", "deref", "as_slice")]
+        cut = []
+        for nm, ct in ch:
+            if nm in ("into_iter", "iter", "copied", "cloned", "get_gossip_targets", "by_ref", "deref", "as_slice"):
+                continue
+            if nm == "filter" and len(ct["args"]) > 1:
+                # the address test moved in front of the loop: a filter whose closure only asks peer_addresses.contains_key(target)
+                cl = src_of_operand(rs, ct["args"][1], through_calls=TRANSPARENT)
+                kid = prog.fns.get(cl.rv.get("n")) if cl.kind == "agg" else None
+                if kid is not None:
+                    kc = [callee(t2) for _, t2 in kid.calls()]
+                    if kc and all(re.search(r"HashMap::<.*ReplicaId, std::string::String.*>::contains_key", c) for c in kc):
+                        continue
+            cut.append(nm)
         ck.check(src_ok and not cut, "R19.5", "route_selective:walks-every-owner" + _tag(cfg),
                  "the per-target loop does not walk the whole list returned by get_gossip_targets (%s): an owner of the key is never sent the delta"
                  % ("adaptors %s" % cut if cut else "iterator source is not the owner list"), rs.where(rs.term(ih)["ln"]),
